@@ -204,6 +204,22 @@ Definition same_named_views (vs vs' : list (string * viewitem)) : Prop :=
   Forall2 (fun v v' => fst v = fst v' /\ vi_sofa (snd v) = vi_sofa (snd v') /\
                        Permutation (vi_members (snd v)) (vi_members (snd v'))) vs vs'.
 
+Lemma filter_perm {A} (f : A -> bool) l l' : Permutation l l' -> Permutation (filter f l) (filter f l').
+Proof.
+  induction 1 as [|x l l' _ IH|x y l|l l' l'' _ IH1 _ IH2]; cbn [filter].
+  - constructor.
+  - destruct (f x); [constructor|]; exact IH.
+  - destruct (f x), (f y); try apply perm_swap; apply Permutation_refl.
+  - eapply perm_trans; eassumption.
+Qed.
+Lemma filter_map_nodup {A B} (g : A -> B) (f : A -> bool) l : NoDup (map g l) -> NoDup (map g (filter f l)).
+Proof.
+  induction l as [|x r IH]; cbn [map filter]; intros H; [constructor|]. inversion H as [|? ? Hx Hr]; subst.
+  destruct (f x); [|apply IH; exact Hr]. cbn [map]. constructor; [|apply IH; exact Hr].
+  intros C. apply Hx. apply in_map_iff in C. destruct C as (y & Ey & Hy). apply filter_In in Hy.
+  apply in_map_iff. exists y. tauto.
+Qed.
+
 Theorem json_emit_order_independent types types' found found' sofas views views' :
   match types, types' with
   | Some t, Some t' => Permutation t t' /\ NoDup (map ty_name t)
@@ -214,7 +230,7 @@ Theorem json_emit_order_independent types types' found found' sofas views views'
   json_emit types found sofas views = json_emit types' found' sofas views'.
 Proof.
   intros HT P ND SV. unfold json_emit, json_fs_emit.
-  rewrite (sort_unique_z fi_id _ _ P ND).
+  rewrite (sort_unique_z fi_id _ _ (filter_perm _ _ _ P) (filter_map_nodup fi_id _ _ ND)).
   assert (map (fun nv : string * viewitem => (fst nv, sort_members (snd nv))) views =
           map (fun nv => (fst nv, sort_members (snd nv))) views') as ->.
   { induction SV as [|v v' vs vs' (H1 & H2 & H3) _ IH]; [reflexivity|]. cbn [map]. rewrite IH. f_equal.
@@ -588,16 +604,29 @@ Proof.
 Qed.
 
 (* the JSON save with its leading sofa data arrays *)
+Lemma uniq_in ta l : In l (uniq ta) <-> In l ta.
+Proof. unfold uniq. rewrite xmi_trav_in. cbn [In]. tauto. Qed.
+Lemma uniq_nodup ta : NoDup (uniq ta).
+Proof. apply xmi_trav_nodup. constructor. Qed.
+Lemma without_nil trav : without [] trav = trav.
+Proof. unfold without. induction trav as [|x r IH]; cbn [filter existsb negb]; [reflexivity|]. f_equal. exact IH. Qed.
+Lemma without_in ta trav l : In l (without ta trav) <-> In l trav /\ ~ In l ta.
+Proof.
+  unfold without. rewrite filter_In, negb_true_iff. split; intros [H1 H2]; split; try exact H1.
+  - intros C. assert (existsb (N.eqb l) ta = true) as E; [|congruence]. apply existsb_exists. exists l. split; [exact C|apply N.eqb_refl].
+  - destruct (existsb (N.eqb l) ta) eqn:E; [|reflexivity]. exfalso. apply H2. apply existsb_exists in E.
+    destruct E as (x & Hx & Ex). apply N.eqb_eq in Ex. subst x. exact Hx.
+Qed.
 Theorem save_pre_nil trav s : save_pre [] trav s = save trav s.
-Proof. reflexivity. Qed.
-Theorem save_pre_state pre trav s : fst (save_pre pre trav s) = traverse (pre ++ trav) s.
+Proof. unfold save_pre, doc_of_pre, save. cbn [uniq xmi_trav fold_left listed flat_map app]. rewrite without_nil. reflexivity. Qed.
+Theorem save_pre_state pre trav s : fst (save_pre pre trav s) = traverse (uniq pre ++ trav) s.
 Proof. reflexivity. Qed.
 Theorem save_pre_idempotent pre trav s : save_pre pre trav (fst (save_pre pre trav s)) = save_pre pre trav s.
 Proof.
-  unfold save_pre. cbn [fst]. rewrite (traverse_settled (pre ++ trav) (traverse (pre ++ trav) s)) by apply traverse_settles.
-  reflexivity.
+  unfold save_pre. cbn [fst].
+  rewrite (traverse_settled (uniq pre ++ trav) (traverse (uniq pre ++ trav) s)) by apply traverse_settles. reflexivity.
 Qed.
-Theorem save_pre_settled pre trav s : settled (pre ++ trav) s -> save_pre pre trav s = (s, doc_of_pre pre trav s).
+Theorem save_pre_settled pre trav s : settled (uniq pre ++ trav) s -> save_pre pre trav s = (s, doc_of_pre pre trav s).
 Proof. intros H. unfold save_pre. rewrite traverse_settled by assumption. reflexivity. Qed.
 
 (* a structure of the store that a save visits is listed in its document: in particular every sofa data array is written by
@@ -631,16 +660,67 @@ Proof. intros Ha. apply save_lists_visited. apply xmi_trav_in. right. exact Ha. 
 Theorem json_save_lists_arrays ta tj s a : In a ta -> id_of a (st_entries s) <> None ->
   exists i, In (a, i) (snd (save_pre ta tj s)).
 Proof.
-  intros Ha Hs. destruct (visited_has_id (ta ++ tj) s a (in_or_app _ _ _ (or_introl Ha)) Hs) as [i Hi]. exists i.
+  intros Ha Hs. apply uniq_in in Ha.
+  destruct (visited_has_id (uniq ta ++ tj) s a (in_or_app _ _ _ (or_introl Ha)) Hs) as [i Hi]. exists i.
   unfold save_pre, doc_of_pre. cbn [snd]. apply in_or_app. left. apply listed_in; assumption.
 Qed.
 
+(* ... and exactly once *)
+Definition countN (a : N) (t : list N) : nat := List.length (filter (N.eqb a) t).
+Lemma countN_notin a t : ~ In a t -> countN a t = 0%nat.
+Proof.
+  unfold countN. induction t as [|x r IH]; cbn [filter In]; intros H; [reflexivity|].
+  destruct (N.eqb a x) eqn:E; [apply N.eqb_eq in E; subst x; exfalso; apply H; left; reflexivity|]. apply IH. tauto.
+Qed.
+Lemma countN_nodup a t : NoDup t -> In a t -> countN a t = 1%nat.
+Proof.
+  unfold countN. induction 1 as [|x r Hx _ IH]; cbn [filter In]; intros Ha; [contradiction|].
+  destruct (N.eqb a x) eqn:E.
+  - apply N.eqb_eq in E. subst x. cbn [List.length]. f_equal. apply (countN_notin a r Hx).
+  - apply N.eqb_neq in E. apply IH. destruct Ha as [Ha|Ha]; [congruence|exact Ha].
+Qed.
+Lemma count_lab_app a d1 d2 : count_lab a (d1 ++ d2) = (count_lab a d1 + count_lab a d2)%nat.
+Proof. unfold count_lab. rewrite filter_app, app_length. reflexivity. Qed.
+Lemma count_lab_perm a d d' : Permutation d d' -> count_lab a d = count_lab a d'.
+Proof. intros P. unfold count_lab. apply Permutation_length. apply filter_perm. exact P. Qed.
+Lemma count_listed a t s : count_lab a (listed t s) =
+  match id_of a (st_entries s) with Some (Some _) => countN a t | _ => 0%nat end.
+Proof.
+  unfold listed, countN. induction t as [|l r IH]; cbn [flat_map filter].
+  - destruct (id_of a (st_entries s)) as [[i|]|]; reflexivity.
+  - rewrite count_lab_app, IH. destruct (N.eqb a l) eqn:E.
+    + apply N.eqb_eq in E. subst l. destruct (id_of a (st_entries s)) as [[i|]|]; cbn [count_lab filter fst List.length];
+        rewrite ?N.eqb_refl; reflexivity.
+    + assert (count_lab a (match id_of l (st_entries s) with Some (Some i) => [(l, i)] | _ => [] end) = 0%nat) as ->.
+      { destruct (id_of l (st_entries s)) as [[i|]|]; try reflexivity. unfold count_lab. cbn [filter fst].
+        rewrite N.eqb_sym, E. reflexivity. }
+      reflexivity.
+Qed.
+Lemma count_doc_of a t s : count_lab a (doc_of t s) = count_lab a (listed t s).
+Proof. unfold doc_of. symmetry. apply count_lab_perm. apply sort_by_permutation. Qed.
+Theorem xmi_save_lists_arrays_once ta tx s a : NoDup tx -> In a ta -> id_of a (st_entries s) <> None ->
+  count_lab a (snd (save (xmi_trav ta tx) s)) = 1%nat.
+Proof.
+  intros ND Ha Hs. assert (In a (xmi_trav ta tx)) as Hin by (apply xmi_trav_in; right; exact Ha).
+  destruct (visited_has_id _ s a Hin Hs) as [i Hi]. unfold save. cbn [snd].
+  rewrite count_doc_of, count_listed, Hi. apply countN_nodup; [apply xmi_trav_nodup; exact ND|exact Hin].
+Qed.
+Theorem json_save_lists_arrays_once ta tj s a : In a ta -> id_of a (st_entries s) <> None ->
+  count_lab a (snd (save_pre ta tj s)) = 1%nat.
+Proof.
+  intros Ha Hs. assert (In a (uniq ta)) as Hu by (apply uniq_in; exact Ha).
+  destruct (visited_has_id (uniq ta ++ tj) s a (in_or_app _ _ _ (or_introl Hu)) Hs) as [i Hi].
+  unfold save_pre, doc_of_pre. cbn [snd]. rewrite count_lab_app, count_doc_of, !count_listed, Hi.
+  rewrite (countN_nodup a _ (uniq_nodup ta) Hu), (countN_notin a (without ta tj)); [reflexivity|].
+  intros C. apply without_in in C. tauto.
+Qed.
+
 Lemma step_traverse ta tx tj o s : exists t, fst (step ta tx tj o s) = traverse t s.
-Proof. destruct o; cbn; [exists (xmi_trav ta tx)|exists (ta ++ tj)|exists []|exists []|exists []|exists tx]; reflexivity. Qed.
+Proof. destruct o; cbn; [exists (xmi_trav ta tx)|exists (uniq ta ++ tj)|exists []|exists []|exists []|exists tx]; reflexivity. Qed.
 
 (* what a format visits, and the document it writes for a state *)
 Definition trav_of (ta tx tj : list N) (k : op) : list N :=
-  match k with OXmi => xmi_trav ta tx | OJson => ta ++ tj | _ => [] end.
+  match k with OXmi => xmi_trav ta tx | OJson => uniq ta ++ tj | _ => [] end.
 Definition fdoc_of (ta tx tj : list N) (k : op) (s : state) : list (N * Z) :=
   match k with OJson => doc_of_pre ta tj s | _ => doc_of (trav_of ta tx tj k) s end.
 
@@ -651,8 +731,8 @@ Proof. intros H l Hl. apply H. apply in_or_app. right. exact Hl. Qed.
 Lemma fdoc_of_agree ta tx tj k s1 s2 : agree (trav_of ta tx tj k) s1 s2 -> fdoc_of ta tx tj k s1 = fdoc_of ta tx tj k s2.
 Proof.
   destruct k; cbn [fdoc_of trav_of]; intros H; try (apply doc_of_agree; exact H).
-  unfold doc_of_pre. rewrite (listed_agree _ _ _ (agree_app_l _ _ _ _ H)), (doc_of_agree _ _ _ (agree_app_r _ _ _ _ H)).
-  reflexivity.
+  unfold doc_of_pre. rewrite (listed_agree _ _ _ (agree_app_l _ _ _ _ H)). f_equal. apply doc_of_agree.
+  intros l Hl. apply (agree_app_r _ _ _ _ H). apply without_in in Hl. tauto.
 Qed.
 
 Lemma step_doc ta tx tj o s d : snd (step ta tx tj o s) = Some d -> d = fdoc_of ta tx tj o (fst (step ta tx tj o s)).
@@ -689,18 +769,22 @@ Proof.
   rewrite (All d Hd), (All d' Hd'). reflexivity.
 Qed.
 
-(* ... and every one of them lists every sofa data array (of the store), from the first to the last *)
+(* ... and every one of them lists every sofa data array (of the store), from the first to the last, exactly once (for XMI:
+   when the traversal lists no structure twice) *)
 Theorem history_documents_list_arrays ta tx tj k ops : forall s d a, k = OXmi \/ k = OJson ->
-  In d (docs_of k ta tx tj ops s) -> In a ta -> id_of a (st_entries s) <> None -> exists i, In (a, i) d.
+  In d (docs_of k ta tx tj ops s) -> In a ta -> id_of a (st_entries s) <> None ->
+  (exists i, In (a, i) d) /\ (k = OJson \/ NoDup tx -> count_lab a d = 1%nat).
 Proof.
   induction ops as [|o r IH]; intros s d a Hk Hd Ha Hs; [contradiction|]. cbn [docs_of] in Hd.
   destruct (step_traverse ta tx tj o s) as [t Ht].
   assert (Hs' : id_of a (st_entries (fst (step ta tx tj o s))) <> None).
   { rewrite Ht. apply id_of_in_labels. rewrite save_keeps_labels. apply id_of_in_labels. exact Hs. }
-  assert (Here : forall d0, snd (step ta tx tj o s) = Some d0 -> op_eqb o k = true -> exists i, In (a, i) d0).
-  { intros d0 E1 E2. apply op_eqb_eq in E2. subst o. destruct Hk as [-> | ->]; cbn in E1.
-    - inversion E1. apply xmi_save_lists_arrays; assumption.
-    - inversion E1. apply json_save_lists_arrays; assumption. }
+  assert (Here : forall d0, snd (step ta tx tj o s) = Some d0 -> op_eqb o k = true ->
+                 (exists i, In (a, i) d0) /\ (k = OJson \/ NoDup tx -> count_lab a d0 = 1%nat)).
+  { intros d0 E1 E2. apply op_eqb_eq in E2. subst o. destruct Hk as [-> | ->]; cbn in E1; inversion E1.
+    - split; [apply xmi_save_lists_arrays; assumption|].
+      intros [C|ND]; [discriminate C|]. apply xmi_save_lists_arrays_once; assumption.
+    - split; [apply json_save_lists_arrays; assumption|]. intros _. apply json_save_lists_arrays_once; assumption. }
   destruct (step ta tx tj o s) as [s' d0]. cbn [fst snd] in *.
   apply in_app_or in Hd. destruct Hd as [Hd|Hd]; [|eapply IH; eassumption].
   destruct d0 as [d0|]; [|contradiction]. destruct (op_eqb o k) eqn:E; [|contradiction].
